@@ -61,10 +61,10 @@ pub const NAME_POOL: [&str; 16] = [
 ];
 
 /// Weighted menu: tokens and owned types are over-represented.
-pub const WEIGHTED: [usize; 86] = [
+pub const WEIGHTED: [usize; 90] = [
     0, 1, 2, 3, 4, 5, 6, 7, 8, 9, 10, 11, 12, 13, 14, 15, 16, 17, 18, 19, 20, 21, 22, 23, 24, 25, 26, 27, 28, 29, 30, // once each
     22, 23, 24, 25, 26, 27, 28, 22, 24, 26, 28, // tokens
-    17, 18, 19, 20, 21, 17, // owned
+    17, 18, 19, 20, 21, 17, 20, 20, 20, 19, // owned (optional values a bit more)
     12, 13, 14, 5, 8, 2, 3, 0, // zero-size, odd sizes, integers
     31, 32, 33, 31, 32, 31, 32, 33, // large token, vector of tokens, large plain data
     34, 35, 34, // cache-line alignment, 320 bytes
@@ -155,6 +155,18 @@ pub fn rhistory() -> impl Strategy<Value = RHistory> {
             }
             RHistory { reqs, final_strat, fragsel, profile }
         })
+}
+
+/// Every variant of the history closed by one strategy (every batch has definitions closed by `basic` only, by
+/// `append_data` only and by `append_data_reverse` only: the default strategy dominates the random ones).
+pub fn single_strategy(mut h: RHistory, strat: Strat) -> RHistory {
+    for r in h.reqs.iter_mut() {
+        if let RReq::Close { strat: s } = r {
+            *s = strat;
+        }
+    }
+    h.final_strat = strat;
+    h
 }
 
 /// Makes the first variant of a history very wide (`want` additions, above the 64 of a machine word of
